@@ -130,7 +130,10 @@ impl vstd::std_specs::convert::FromSpecImpl<SourceSpan> for Range<usize> {
 //@  fn shift_action
 //@  |         ensures final(self).out() == old(self).out(), final(self).inp() == old(self).inp(), // [C14]
 //@  fn reduce_action
-//@  |         ensures final(self).out().is_some(), final(self).inp() == old(self).inp(), // [C14]
+//@  |         // every reduction -- an EMPTY one included -- replaces the stored slice: the result of a layout parse is never the slice
+//@  |         // of an earlier one (C15: LRParser::next_token retries the lexer whenever the layout parser returns a non-empty
+//@  |         // layout; a stale non-empty result makes it retry forever -- seed C15c)
+//@  |         ensures final(self).out().is_some(), final(self).inp() == old(self).inp(), // [C14, C15]
 //@end
 
 } // verus!
